@@ -60,7 +60,7 @@ def main(tier, replay, t0):
                 g = c.gen[x["id"]]
                 if g.get("result") != "ok":
                     continue
-                base = {"wgsl": c.wgsl, "options": x["opt"], "include_path": x.get("include_path")}
+                base = {"case_id": c.id, "wgsl": c.wgsl, "options": x["opt"], "include_path": x.get("include_path")}
                 inv = g.get("inv", {})
                 src_item = [k for k in inv.get("consts", []) if k["name"] == "SOURCE"]
                 fmt = bool(x["opt"].get("fmt"))
